@@ -84,3 +84,43 @@ Print Assumptions C06_state_changes_only_by_accepted_announce.
 
 (* the scrape list handed to the swarm is the first max_scrape_torrents requested hashes, in
    request order: C13_roundtrip_scrape_cut; its size bound: C12_udp_scrape_alloc *)
+
+(* ---- receive buffers: what reaches the handler ---- *)
+From Aquatic Require Import Consts.
+
+(* on either backend a datagram causes at most what the handler gives for a prefix of it;
+   one that fits the receive buffer is handled exactly *)
+Theorem C06_serve_is_handle_of_prefix_or_drop : forall mac St da ds b cfg now st from bytes,
+  serve L mac St da ds b cfg now st from bytes = Ok (st, None)
+  \/ exists n, serve L mac St da ds b cfg now st from bytes = handle L mac St da ds cfg now st from (firstn n bytes).
+Proof. exact serve_is_handle_of_prefix_or_drop. Qed.
+Print Assumptions C06_serve_is_handle_of_prefix_or_drop.
+
+Theorem C06_serve_is_handle_when_fits : forall mac St da ds b cfg now st from bytes,
+  fits b bytes -> serve L mac St da ds b cfg now st from bytes = handle L mac St da ds cfg now st from bytes.
+Proof. exact serve_is_handle_when_fits. Qed.
+Print Assumptions C06_serve_is_handle_when_fits.
+
+(* KNOWN FINDING (uring-request-buffer): "exactly one reply for any well-formed request carrying
+   a valid connection id" is FALSE on the io_uring backend for requests longer than
+   REQUEST_BUF_LEN - 16 - sizeof(sockaddr) = 480 (v4 socket) / 468 (v6 socket) bytes: a
+   well-formed scrape naming 24 torrents (496 bytes; max_scrape_torrents defaults to 70) is
+   dropped whatever id it carries, while the mio backend answers it. *)
+Theorem C06_uring_drops_wellformed_scrape_refuted : forall mac St da ds cfg now st from cid tid hs v6s,
+  signed_ok 8 cid -> signed_ok 4 tid -> Forall (fun h => length h = 20%nat) hs -> hs <> [] ->
+  (uring_capacity (N.to_nat uring_REQUEST_BUF_LEN) v6s < 16 + 20 * length hs)%nat ->
+  let bytes := write_request L (UdpCodec.RScrape cid tid hs) in
+  parse_request L bytes (hc_max_scrape cfg) = POk (UdpCodec.RScrape cid tid (firstn (Nat.min (hc_max_scrape cfg) (length hs)) hs))
+  /\ serve L mac St da ds (Uring (N.to_nat uring_REQUEST_BUF_LEN) v6s) cfg now st from bytes = Ok (st, None).
+Proof.
+  intros mac St da ds cfg now st from cid tid hs v6s Hc Ht Hall Hne Hn bytes. split.
+  - apply roundtrip_scrape; assumption.
+  - apply uring_drops_long_datagrams. unfold bytes. rewrite (scrape_request_length _ _ _ Hall). exact Hn.
+Qed.
+Print Assumptions C06_uring_drops_wellformed_scrape_refuted.
+
+(* with the constants of the current source the hypothesis holds from 24 torrents on *)
+Example C06_uring_capacity_now :
+  uring_capacity (N.to_nat uring_REQUEST_BUF_LEN) false = N.to_nat (uring_REQUEST_BUF_LEN - 32)
+  /\ uring_capacity (N.to_nat uring_REQUEST_BUF_LEN) true = N.to_nat (uring_REQUEST_BUF_LEN - 44).
+Proof. split; reflexivity. Qed.
